@@ -197,7 +197,7 @@ def gen_all(max_len):
             for x in labs:
                 for sp in spans.spellings(desc, x):
                     present.append(spans.enc_label(sp))
-            absent = [spans.enc_label(x) for x in spans.absent_labels(desc)]
+            absent = [spans.enc_label(x) for x in spans.absent_labels(desc) + spans.odd_absent_labels(desc)]
             for lab in present + absent:
                 for op in ('get', 'set'):
                     yield {'span': desc, 'kind': kind, 'op': op, 'label': lab}
